@@ -417,6 +417,14 @@ pub fn on_poll_result(w: &mut World, rid: usize, progressed: bool, wakes_since_l
     if progressed && polls_before > 0 && wakes_since_last_poll == 0 {
         let st = w.reqs[rid].state;
         w.violate("C03", format!("lost-wakeup:progress-to-{st:?}-without-wake"), format!("r{rid} progressed at step {step} on an unsolicited poll: no wake-up was delivered since its previous poll"));
+        // C14: the progress was a freed connection taken while the request's own dial is still outstanding; without a
+        // wake-up the request is only served if something else happens to poll it
+        let r = &w.reqs[rid];
+        let preempted = st == ReqState::Sent && !r.responded && r.dial.is_some() && r.conn.map(|c| Some(w.conns[c].dial) != r.dial).unwrap_or(false);
+        if preempted {
+            let (c, d) = (r.conn.unwrap(), r.dial.unwrap());
+            w.violate("C14", "released-connection-does-not-wake-the-waiting-request", format!("r{rid} (own dial d{d} outstanding) took the released connection c{c} only because it was polled unsolicited at step {step}: the release delivered no wake-up"));
+        }
     }
     // C14(a): a connection handed back while this request was waiting must have found a taker by now
     if w.reqs[rid].state == ReqState::Checkout {
